@@ -18,7 +18,7 @@ static rc::Gen<Val> genVal()
   using namespace rc;
   // array sizes cross the growth boundaries of the writer's vector (1,2,4,8,16,...,~300)
   auto ints = gen::weightedOneOf<std::vector<int>>({{6, genInts(9)}, {2, genInts(40)}, {1, genInts(300)}});
-  return gen::build<Val>(gen::set(&Val::tag, pbt::range<int>(0, T_NTAGS - 1)), gen::set(&Val::n, pbt::range<long long>(-100000, 100000)),
+  return gen::build<Val>(gen::set(&Val::tag, gen::weightedOneOf<int>({{14, pbt::range<int>(0, T_LONG_STRING - 1)}, {1, gen::just((int)T_LONG_STRING)}, {1, gen::just((int)T_VEC_CSTR)}})), gen::set(&Val::n, pbt::range<long long>(-100000, 100000)),
       gen::set(&Val::s, genStr()), gen::set(&Val::v, ints), gen::set(&Val::vs, pbt::vec(genStr(), 4)), gen::set(&Val::vv, pbt::vec(genInts(5), 4)));
 }
 
